@@ -73,7 +73,7 @@ def base_machine(rng):
 def mutate(asl, r):
     m = copy.deepcopy(asl)
     nodes = [(p, n) for p, n in walk(m) if p]
-    kind = r.choice(["drop", "retype", "rename", "retarget", "dupstate", "wrongjson", "hostile-name", "payload-key-name", "nonobject-state", "empty"])
+    kind = r.choice(["drop", "retype", "rename", "retarget", "dupstate", "wrongjson", "hostile-name", "payload-key-name", "nonobject-state", "empty", "empty-array"])
     p, n = r.choice(nodes)
     parent = get(m, p[:-1]); key = p[-1]
     if kind == "drop":
@@ -115,6 +115,11 @@ def mutate(asl, r):
         sts = [(pp, nn) for pp, nn in walk(m) if pp and pp[-1] == "States" and isinstance(nn, dict) and nn]
         pp, states = r.choice(sts)
         states[r.choice(list(states))] = r.choice(["Bogus", 5, None, [], True])
+    elif kind == "empty-array":
+        arrays = [(pp, nn) for pp, nn in walk(m) if pp and isinstance(nn, list) and nn]
+        if arrays:
+            pp, nn = r.choice(arrays)
+            del nn[:]
     else:
         parent[key] = {} if isinstance(n, dict) else [] if isinstance(n, list) else ""
     return m, kind
@@ -143,6 +148,26 @@ def arbitrary_json(r, depth=3):
         return {r.choice(["StartAt", "States", "Type", "Next", "End", "Branches", "Choices", "Retry", "Catch", "x", "Comment", "TimeoutSeconds", "Version"]): arbitrary_json(r, depth - 1)
                 for _ in range(r.randint(0, 4))}
     return [arbitrary_json(r, depth - 1) for _ in range(r.randint(0, 3))]
+
+
+def uninterpretable(m):
+    """A (nested) state machine whose "States" is missing or not an object, or one of whose states is not an object or has no "Type": the engine
+    dereferences these outside its error handlers (find_state / state.get), which is the listed finding's mechanism."""
+    def machines(node, root):
+        if root or (isinstance(node, dict) and ("StartAt" in node or "States" in node)):
+            yield node
+        if isinstance(node, dict):
+            for v in node.values():
+                yield from machines(v, False)
+        elif isinstance(node, list):
+            for v in node:
+                yield from machines(v, False)
+    for mm in machines(m, True):
+        if not isinstance(mm, dict) or not isinstance(mm.get("States"), dict):
+            return True
+        if any(not isinstance(st, dict) or "Type" not in st for st in mm["States"].values()):
+            return True
+    return False
 
 
 def unvalidated_nodes(m):
@@ -174,7 +199,20 @@ def classify_accepted(m, kind, res):
     names = [k for pp, nn in walk(m) if pp and pp[-1] == "States" and isinstance(nn, dict) for k in nn]
     if any(n in HOSTILE_NAMES or n == "payloadkey" for n in names):
         return "state-name-collides-with-jsonpath-lookup"
+    if res and res.get("status") == "NONE" and handled_fanout_failure_with_siblings(m, res.get("history") or []):
+        return "fanout-failure-handled-siblings-live"
     return None
+
+
+def handled_fanout_failure_with_siblings(m, history):
+    """C06's listed finding seen from here: a Map/Parallel state with several branches failed, the failure was handled (the history goes
+    on after <Type>StateFailed), and the siblings that were never stopped keep reporting to a join that no longer exists."""
+    several = any(isinstance(st, dict) and (st.get("Catch") or st.get("Retry")) and
+                  (st.get("Type") == "Map" or (st.get("Type") == "Parallel" and isinstance(st.get("Branches"), list) and len(st["Branches"]) > 1))
+                  for _, st in walk(m))
+    types = [h.get("type") for h in history]
+    failed = [i for i, t in enumerate(types) if t in ("ParallelStateFailed", "MapStateFailed")]
+    return several and bool(failed) and len(types) > failed[0] + 2
 
 
 def callback_frames(error):
@@ -243,10 +281,31 @@ def poison_run(ctx, poison_kind, payload, k):
     ctx.nontrivial([poison_kind, payload])
     scn = {"machines": {"h": {"asl": HEALTHY}}, "funcs": dict(F.FUNCS), "starts": [{"machine": "h", "name": "healthy", "input": {"x": 1}}]}
 
+    preamble_escapes = []
+
+    def watch_notify(se):
+        """Record exceptions that leave notify() from its own preamble (looking the state up, reading its Type, ...), i.e. before any
+        state handler or error handler of the engine was entered: that is the listed finding's mechanism, nothing else is."""
+        orig = se.notify
+
+        def notify(event, id=None, *a, **k):
+            try:
+                return orig(event, id, *a, **k)
+            except Exception as ex:
+                import traceback
+                names = [f.name for f in traceback.extract_tb(ex.__traceback__) if f.filename.endswith("state_engine.py")]
+                inner = names[names.index("notify") + 1:] if "notify" in names else names
+                if not any(n.startswith("asl_state_") or n in ("handle_error", "handle_terminal_state", "change_state", "end_execution") for n in inner):
+                    preamble_escapes.append((type(ex).__name__, names[-3:]))
+                raise
+        se.notify = notify
+
     def hook(run):
         w = run.world
         ch = w.client_channel()
         props = lambda mid: fakepika.BasicProperties(message_id=mid, content_type="application/json", delivery_mode=2)
+        for e in w.engines.values():
+            watch_notify(e.se)
         if poison_kind == "definition":
             arn = w.sm_arn("poison")
             e = next(iter(w.engines.values()))
@@ -266,8 +325,14 @@ def poison_run(ctx, poison_kind, payload, k):
         harn = w.sm_arn("h").replace("stateMachine", "execution") + ":healthy"
         st, out, err, t = run.outcomes.get(harn, ("NONE", None, None, None))
         wit = lambda extra: S.witness_of(run, dict(extra, poison_kind=poison_kind, poison=payload))
-        nonobject_state = poison_kind == "definition" and any(not isinstance(st, dict) for _, nn in walk(payload) if isinstance(nn, dict) and isinstance(nn.get("States"), dict)
-                                                             for st in nn["States"].values())
+        nonobject_state = poison_kind == "definition" and (uninterpretable(payload) or bool(preamble_escapes))
+        if preamble_escapes:
+            ctx.count("poison_exception_left_notify_preamble")
+        if run.error and "no quiescence after" in run.error:
+            # a definition that loops in zero virtual time (e.g. a Catcher whose Next is the failing state itself) is a legal machine; the
+            # discrete-event clock cannot advance past it, so nothing about the neighbours can be concluded from this run
+            ctx.count("poison_loops_in_zero_time_not_judged")
+            return
         escaped = "exception-in-deferred-callback-escapes-the-engine" if callback_frames(run.error) else None
         if run.error:
             ctx.violation("poison-made-an-exception-escape-the-engine", wit({}), escaped)
@@ -391,6 +456,13 @@ def witnesses(ctx):
         run_accepted(sub2, m2, "hostile-name")
     hit = [v for v in sub2.violations if v["mechanism"] == "state-name-collides-with-jsonpath-lookup"]
     ctx.witness("state-name-collides-with-jsonpath-lookup", bool(hit), dict(kinds=sorted({v["kind"] for v in hit})))
+    # repaired engine defects are regression cases: a Parallel state without branches (accepted by the validator) used to wait for ever
+    E = {"Type": "Parallel", "Branches": [], "End": True}
+    for x in ({"StartAt": "A", "States": {"A": E}}, {"StartAt": "A", "States": {"A": dict(E, End=None, Next="B", ResultPath="$.r"), "B": {"Type": "Succeed"}}},
+              {"StartAt": "A", "States": {"A": {"Type": "Parallel", "End": True, "Branches": [{"StartAt": "X", "States": {"X": E}}, {"StartAt": "Y", "States": {"Y": {"Type": "Pass", "End": True}}}]}}}):
+        x = json.loads(json.dumps(x)); [st.pop("End") for _, st in walk(x) if isinstance(st, dict) and "End" in st and st["End"] is None]
+        if validate(ctx, sl, x) == []:
+            run_accepted(ctx, x, "parallel-without-branches")
     # repaired validator defects are regression cases
     for x in ({"StartAt": "A", "States": {"A": {"Type": "Wait", "Timestamp": 5, "End": True}}}, None, 1, [], {}):
         p = validate(ctx, sl, x)
